@@ -236,7 +236,6 @@ func RollDoubleCross(src *rand.PCGSource, addLine IntType, pool IntType, points 
 
 			if reachAddRound {
 				addCount += 1
-				maxDice = 10
 			}
 
 			if isShowDetails {
@@ -248,6 +247,10 @@ func RollDoubleCross(src *rand.PCGSource, addLine IntType, pool IntType, points 
 			}
 		}
 
+		if addCount > 0 {
+			// 暴击轮固定计10，与该轮内骰子的先后顺序无关
+			maxDice = 10
+		}
 		resultDice += maxDice
 		allRollCount += addCount
 
